@@ -23,6 +23,7 @@ import (
 	"github.com/openconfig/gnmi/zzverif/harness/common"
 	"github.com/openconfig/gnmi/zzverif/simgrpc"
 	"github.com/openconfig/gnmi/zzverif/simrt"
+	"github.com/openconfig/gnmi/zzverif/simsync"
 	"google.golang.org/grpc"
 	"google.golang.org/protobuf/proto"
 )
@@ -61,6 +62,12 @@ type Scenario struct {
 	// listed updates are played verbatim (then the sync marker). SharedCfg:
 	// both engines are built from one configuration object, the way the fake
 	// agent builds a client per Subscribe call from its one configuration.
+	// RaceSeed (POLL, >0): the configuration is replaced by one that differs only
+	// in its seed. Engine 1 does it between two passes (SetConfig, then the
+	// poll trigger), engine 0 right after the trigger, i.e. while the engine
+	// rebuilds its generator: that pass must play the old or the new
+	// configuration - entirely.
+	RaceSeed  int64       `json:"race_seed,omitempty"`
 	Fixed     []FixedResp `json:"fixed,omitempty"`
 	SharedCfg bool        `json:"shared_cfg,omitempty"`
 }
@@ -127,6 +134,9 @@ func (H) Generate(rng *simrt.Rand, prop, tier string) (any, simrt.Config) {
 			v.TS += shift
 			sc.Values2 = append(sc.Values2, v)
 		}
+	}
+	if sc.Mode == "poll" && sc.Polls > 0 && !unbounded && len(sc.Values2) == 0 && rng.Chance(0.5) {
+		sc.RaceSeed = sc.Seed + 1 + int64(rng.Intn(1000))
 	}
 	return sc, cfg
 }
@@ -385,6 +395,11 @@ func decodeAll(ms []sent) []emitted {
 func (H) Execute(x *common.Exec, s any) {
 	sc := s.(*Scenario)
 	const engines = 2
+	// every lock release of the fake is a scheduling point of its own: what a
+	// goroutine reads after it dropped the configuration lock can then change
+	// under its feet, as it can in a real process
+	simsync.YieldAfterUnlock = true
+	defer func() { simsync.YieldAfterUnlock = false }()
 	simgrpc.SetHooks(&simgrpc.Hooks{Window: sc.Window})
 	var sts [engines]*simgrpc.Stream
 	var runErr [engines]error
@@ -453,7 +468,13 @@ func (H) Execute(x *common.Exec, s any) {
 							cur = second(sc)
 							cl.SetConfig(build(cur))
 						}
+						if polls == 1 && sc.RaceSeed > 0 && e == 1 {
+							cl.SetConfig(build(reseeded(sc)))
+						}
 						cs.SendMsg(&gpb.SubscribeRequest{Request: &gpb.SubscribeRequest_Poll{Poll: &gpb.Poll{}}})
+						if polls == 1 && sc.RaceSeed > 0 && e == 0 {
+							cl.SetConfig(build(reseeded(sc))) // races the rebuild of the generator
+						}
 					} else {
 						cl.Close()
 						scancel()
@@ -531,6 +552,50 @@ func (H) Execute(x *common.Exec, s any) {
 		}
 		return sb.String()
 	}
+	if sc.RaceSeed > 0 {
+		x.Fault("configuration-replaced-while-the-generator-is-rebuilt")
+		// engine 1 is the reference: pass 0 plays the old seed, every later pass
+		// the new one. Engine 0's first pass plays the old one, each later pass
+		// either - but one of them, whole.
+		L := expectedRoundLen(sc)
+		same := func(a, b []emitted) bool {
+			if len(a) != len(b) {
+				return false
+			}
+			for i := range a {
+				if a[i].sync != b[i].sync || a[i].path != b[i].path || a[i].ts != b[i].ts || a[i].val != b[i].val || a[i].del != b[i].del {
+					return false
+				}
+			}
+			return true
+		}
+		if L > 0 && len(em[1]) >= 2*L && len(em[0]) >= L {
+			refOld, refNew := em[1][:L], em[1][L:2*L]
+			for r := 0; (r+1)*L <= len(em[0]); r++ {
+				pass := em[0][r*L : (r+1)*L]
+				x.Oblige(1)
+				if same(pass, refOld) || r > 0 && same(pass, refNew) {
+					continue
+				}
+				x.Violate("C20/not-reproducible", "pass %d of an engine whose configuration was replaced (seed %d -> %d) while it rebuilt its generator is neither the sequence of the old configuration nor that of the new one\npass:\n%sold configuration:\n%snew configuration:\n%s", r, sc.Seed, sc.RaceSeed, show(pass), show(refOld), show(refNew))
+				return
+			}
+		}
+		for e := 0; e < engines; e++ {
+			for r := 0; L > 0 && (r+1)*L <= len(em[e]) && len(em[1]) >= 2*L; r++ {
+				pass := em[e][r*L : (r+1)*L]
+				spec := sc
+				if r > 0 && same(pass, em[1][L:2*L]) {
+					spec = reseeded(sc)
+				}
+				judgeRound(x, spec, pass, show)
+				if len(x.Viol) > 0 {
+					return
+				}
+			}
+		}
+		return
+	}
 	// ---- reproducibility: same configuration and seed => identical sequences
 	x.Oblige(1)
 	n := len(em[0])
@@ -589,6 +654,22 @@ func (H) Execute(x *common.Exec, s any) {
 			return
 		}
 	}
+}
+
+// reseeded is the scenario with the replacement seed of a RaceSeed run.
+func reseeded(sc *Scenario) *Scenario {
+	c := *sc
+	c.Seed = sc.RaceSeed
+	// same shape (kinds, repeats, timestamps: the passes have the same length),
+	// other numbers: a generator built from the old values and the new seed is
+	// neither configuration's
+	c.Values = append([]VSpec(nil), sc.Values...)
+	for i := range c.Values {
+		c.Values[i].Min += 7
+		c.Values[i].Max += 7
+		c.Values[i].Init += 7
+	}
+	return &c
 }
 
 // second is the scenario as it is after the SetConfig of a POLL run.
